@@ -4,8 +4,9 @@
   Request: `al` = `[[k, body, id] …]` (k: 0 keep, 1 delete, 2 insert; body = the line without its
   `\n`, a JSON string or an array of bytes; id = content id), `authors` = previous per-line authors
   and `who` = reporter as numbers (0 = a person, s > 0 = AI session s), `ts`, `ts0`, and optionally
-  `tail` = a last inserted line WITHOUT final newline (outside `LineStep`; composed here from the
-  same tracker functions).
+  `tail` = a last inserted line WITHOUT final newline (legacy form; composed here from the same
+  tracker functions), `onl` / `nnl` (default true) = does the previous / current content end with a
+  newline (`LineStep.lineStepE`, substantive ranges by the segment contract: `tailSubst`).
   Response: `ok` = per-line authors computed by the byte-level model (`LineStep.lineStep`),
   `lsegs` = the same (the harness compares it with the real transform run on the line segments),
   `rule` = `LineStep.lineRule`, `sys` = `Sys.checkpointAttr` on the ids, `pre` = the hypotheses of
@@ -74,13 +75,22 @@ def handle (op : String) (j : Json) : Option (Except String Json) :=
         | .ok (.null) => pure none
         | .ok t => do pure (some (← TrackerD.textOf t))
         | .error _ => pure none
+      let flag (k : String) : Bool := match j.getObjVal? k with
+        | .ok (.bool b) => b
+        | _ => true
+      let oNl := flag "onl"
+      let nNl := flag "nnl"
       let res := match tail with
-        | none => lineStep al (authors.map enc) (enc who) ts ts0 []
+        | none =>
+          if oNl && nNl then lineStep al (authors.map enc) (enc who) ts ts0 []
+          else lineStepE oNl nNl al (authors.map enc) (enc who) ts ts0 (tailSubst nNl al)
         | some t => withTail al t (authors.map enc) (enc who) ts ts0
       let sys := (Sys.checkpointAttr ⟨pids, authors⟩ (newIdsOf ial) who).map enc
       let pre := jObj [("alOk", Json.bool (alOk al)), ("len", Json.bool (authors.length == pids.length)),
                        ("unique", Json.bool (decide pids.Nodup)),
-                       ("fresh", Json.bool ((insertedIdsOf ial).all (fun y => !pids.contains y)))]
+                       ("fresh", Json.bool ((insertedIdsOf ial).all (fun y => !pids.contains y))),
+                       ("lastOk", Json.bool (lastOk oNl (oldBodies al) && lastOk nNl (newBodies al))),
+                       ("eofPlain", Json.bool (eofPlain oNl nNl al))]
       match res with
       | .error _ => pure (jObj [("err", Json.str "panic"), ("pre", pre)])
       | .ok r => pure (jObj [("ok", jStrs r), ("lsegs", jStrs r), ("rule", jStrs (lineRule al (authors.map enc) (enc who))),
